@@ -3,6 +3,7 @@
      <h>.permraw w0 .. w(w-1)         -> internal words of the permuted state (raw model: generated f64 ops + mds_multiply)
      <h>.hash <hexbytes>              -> 4 residues | panic                      (h = rp64 | rp62 | jive)
      <h>.he <deg> <flat residues|->   -> 4 residues   (elements of extension degree deg, coefficient-flattened)
+     <h>.heraw <residues|->          -> 4 INTERNAL words of hash_elements(new(r0), ..) (raw model: generated field ops on internal words)
      <h>.merge a0..a3 b0..b3          -> 4 residues
      <h>.mwi s0..s3 <u64>             -> 4 residues
      mds12.freq / mds8.freq <u64 limbs>   -> output limbs [!ok]   (generated code; !ok = a checked op is out of range)
@@ -42,6 +43,9 @@ let eval toks =
       | [ "rp64"; "he" ], d :: flat -> hs (Rescue.rp64_hash_elements (elems (int_of_string d) flat))
       | [ "rp62"; "he" ], d :: flat -> hs (Rescue.rp62_hash_elements (elems (int_of_string d) flat))
       | [ "jive"; "he" ], d :: flat -> hs (Rescue.jive_hash_elements (elems (int_of_string d) flat))
+      | [ "rp64"; "heraw" ], _ -> hs (Rescue.rp64_raw_hash_elements (Stdlib.List.map (fun v -> [ F64.f64_new v ]) (if args = [ "-" ] then [] else zs args)))
+      | [ "jive"; "heraw" ], _ -> hs (Rescue.jive_raw_hash_elements (Stdlib.List.map (fun v -> [ F64.f64_new v ]) (if args = [ "-" ] then [] else zs args)))
+      | [ "rp62"; "heraw" ], _ -> hs (Rescue.rp62_raw_hash_elements (Stdlib.List.map (fun v -> [ F62.f62_new v ]) (if args = [ "-" ] then [] else zs args)))
       | [ "rp64"; "merge" ], _ -> let (a, b) = split4 (zs args) in hs (Rescue.rp64_merge a b)
       | [ "rp62"; "merge" ], _ -> let (a, b) = split4 (zs args) in hs (Rescue.rp62_merge a b)
       | [ "jive"; "merge" ], _ -> let (a, b) = split4 (zs args) in hs (Rescue.jive_merge a b)
